@@ -344,10 +344,11 @@ func IndexScenarios() []Scenario {
 	add := func(name string, f func(e *Env) []Call) { out = append(out, Scenario{Name: "index/" + name, Calls: f}) }
 	ixs := []IndexSpec{{Key: d("a", int32(1)), Expire: -1}, {Key: d("a", int32(-1), "b", int32(1)), Expire: -1},
 		{Key: d("b", int32(1)), Partial: d("a", d("$gte", int32(2))), Name: "pb", Expire: -1}, {Key: d("t", int32(1)), Expire: -1},
-		{Key: d("c", int32(1)), Expire: 3600}, {Key: d("a.b", int32(-1)), Expire: -1}}
+		{Key: d("c", int32(1)), Expire: 3600}, {Key: d("a.b", int32(-1)), Expire: -1}, {Key: d("sub.tags", int32(1)), Expire: -1}}
 	docs := []bson.D{d("_id", int32(1), "a", int32(1), "b", int32(5), "t", bson.A{int32(1), int32(2)}), d("_id", int32(2), "a", int32(2), "b", int32(4), "t", bson.A{}),
 		d("_id", int32(3), "a", int32(3), "b", int32(3)), d("_id", int32(4), "a", bson.A{int32(1), int32(5)}, "b", int32(2), "t", int32(2)), d("_id", int32(5), "b", int32(1)),
-		d("_id", int32(6), "a", d("b", int32(2)), "b", int32(1)), d("_id", int32(7), "a", bson.A{d("b", int32(1)), d("b", int32(3))})}
+		d("_id", int32(6), "a", d("b", int32(2)), "b", int32(1)), d("_id", int32(7), "a", bson.A{d("b", int32(1)), d("b", int32(3))}),
+		d("_id", int32(8), "sub", d("tags", bson.A{int32(3), int32(1), int32(2)}, "n", int32(1))), d("_id", int32(9), "sub", d("tags", bson.A{int32(5), int32(4)}))}
 	writes := func(e *Env) []Call {
 		return []Call{
 			e.Update(sns, true, d(), d("$inc", d("a", int32(1))), false, nil),         // fails on arrays / documents: nothing may change
@@ -366,6 +367,15 @@ func IndexScenarios() []Scenario {
 			e.Update(sns, false, d("_id", int32(50)), d("$set", d("a", int32(2), "b", int32(2))), true, nil),
 			e.Delete(sns, false, d("a", int32(2))),
 			e.Find(sns, d(), d("a", int32(1), "b", int32(-1)), nil, 0, 0),
+			// reads whose projection overlays part of an included value (nothing may be written through to the stored
+			// documents or their index keys), then writes to the documents that were read
+			e.Find(sns, d("_id", d("$gte", int32(8))), nil, d("sub", int32(1), "sub.tags", d("$slice", int32(1))), 0, 0),
+			e.Find(sns, d("_id", d("$gte", int32(7))), d("_id", int32(-1)), d("a", d("$slice", int32(-1)), "sub.tags", d("$slice", bson.A{int32(1), int32(1)})), 0, 0),
+			e.FindOneAndUpdate(sns, d("_id", int32(9)), d("$set", d("z", int32(1))), nil, d("sub", int32(1), "sub.tags", d("$slice", int32(-1))), false, true, nil),
+			e.Update(sns, false, d("_id", int32(8)), d("$push", d("sub.tags", int32(0))), false, nil),
+			e.Delete(sns, false, d("_id", int32(9))),
+			e.Delete(sns, false, d("_id", int32(8))),
+			e.InsertOne(sns, d("_id", int32(8), "sub", d("tags", bson.A{int32(1)}))),
 			// one call that changes some of the matched documents and leaves others as they are; the untouched ones
 			// are then written again on their own
 			e.InsertMany(sns, []bson.D{d("_id", int32(60), "a", int32(1), "b", int32(1)), d("_id", int32(61), "a", int32(5), "b", int32(2)), d("_id", int32(62), "a", int32(9), "b", int32(3))}, true),
